@@ -363,10 +363,19 @@ Section Async.
 
   (* the property text, last sentence: when stop() has returned, every record appended before the
      call was handed to the LogFile (or discarded by an announced overload drop) and flushed *)
+  (* every record the back-end has taken out of the front-end buffers, in order *)
+  Definition taken (g : ghost_t) : list R := flat (concat (batches g) ++ fbatch g).
+
   Definition stop_flushed (s : ast) : Prop :=
     joined (gh s) = true ->
     forall m, mark (gh s) = Some m ->
-      exists rest, flat (flat_map (fun b => b) (batches (gh s)) ++ fbatch (gh s)) = firstn m (hist (gh s)) ++ rest.
+      exists rest, taken (gh s) = firstn m (hist (gh s)) ++ rest.
+
+  (* what the back-end must have done to the file/stderr once it has finished: every loop batch
+     rendered by [render_batch]; then, in the repaired shape, the final batch written entirely;
+     then the flush after the loop *)
+  Definition final_out (g : ghost_t) : list oev :=
+    flat_map render_batch (batches g) ++ map OBuf (fbatch g) ++ [OFlush].
 End Async.
 
 Arguments mkBuf {R} recs blen. Arguments recs {R} b. Arguments blen {R} b.
@@ -384,6 +393,7 @@ Arguments mkA {R} sh be gh progs. Arguments sh {R} a. Arguments be {R} a. Argume
 Arguments init {R} programs.
 Arguments flat {R} l.
 Arguments written_of {R} o.
+Arguments taken {R} g.
 
 (* ---- instance used by the extracted runner: a record = (thread, sequence number, length) ---- *)
 Definition xrec := (nat * nat * Z)%type.
